@@ -128,11 +128,15 @@ def _hist(rng, B, H, depth, alphabet):
 
 
 def _exhaustive(rng, B, depth, letters=("i", "R", "W", "r")):
-    """all words over the letters up to the given depth; `i` chunks cycle through the length classes"""
+    """all words over the letters up to the given depth; `i` chunks cycle through the length classes.  With the clone
+    letters (`c` push a clone, `x` swap with the top of the stack) words whose `x` finds an empty stack (a no-op) and
+    words ending in `c` (a clone nobody looks at) are skipped: they repeat a shorter word."""
     words = [[]]
     for _ in range(depth):
-        words = [w + [l] for w in words for l in letters]
+        words = [w + [l] for w in words for l in letters if not (l == "x" and "c" not in w)]
         for w in words:
+            if w[-1] == "c":
+                continue
             k = [0]
 
             def ren(l):
@@ -141,6 +145,9 @@ def _exhaustive(rng, B, depth, letters=("i", "R", "W", "r")):
                     return "i" + hx(_chunk(rng, B, (k[0] + len(w)) % 5))
                 return l
             yield ";".join(ren(l) for l in w)
+
+
+CLONE_LETTERS = ("i", "R", "W", "r", "c", "x")
 
 
 DIRECTED = ["R;R", "W;W", "R;W", "R;i00", "R;i-", "i-;R", "r;R", "R;r;R", "i{m};R;r;i{m};R", "i{m};r;R", "i{m};R;r;R",
@@ -167,9 +174,12 @@ def gen_C09(tier, rng):
             key = rng.rbytes([0, 1, 20, B, B + 1][rng.randrange(5)])
             p = _hist(rng, B, H, rng.randrange(1, depth + 1), ["i", "i", "R", "W", "r", "o", "Wn"])
             yield (f"mac.hmac {d} {hx(key)} {p}", f"hmacobj.{d}.random")
-    for d in ("sha256", "sha3_256") if quick else ("sha256", "sha3_256", "sha512", "blake2s_32"):
-        key = rng.rbytes(20)
-        for p in _exhaustive(rng, block_of(d), 4 if quick else 5):
+    # every history over {input, result, raw_result, reset} to depth 4 for EVERY HMAC type (340 per type); thorough: depth 5
+    # (1364 per type) for one type of each engine family
+    deep = () if quick else ("sha256", "sha3_256", "sha512", "blake2s_32", "sha1", "ripemd160", "blake2b_64")
+    for d in ALL:
+        key = rng.rbytes([20, 1, block_of(d), block_of(d) + 1][ALL.index(d) % 4])
+        for p in _exhaustive(rng, block_of(d), 5 if d in deep else 4):
             yield (f"mac.hmac {d} {hx(key)} {p}", f"hmacobj.{d}.exhaustive")
     # --- legacy digest objects vs the one-shot functions (Spec = the hash of the bytes since the last reset)
     for d in ALL:
@@ -191,9 +201,16 @@ def gen_C09(tier, rng):
             for _ in range(4 if quick else 16):
                 p = _hist(rng, B, H, rng.randrange(2, depth + 1), alpha + ["k", "k"])
                 yield (f"dig.obj {d} {p}", f"digobj.{d}.rekey")
-    for d in ("sha1", "sha512", "keccak256") if quick else ("sha1", "sha512", "keccak256", "ripemd160", "sha3_512", "blake2b_64"):
-        for p in _exhaustive(rng, block_of(d), 4 if quick else 5):
+    # every history over {input, result, raw_result, reset, clone, swap} to depth 4 for EVERY legacy digest type (the
+    # objects are Clone); thorough: depth 5 without the clone letters for one type of each engine family
+    deep = () if quick else ("sha1", "sha512", "keccak256", "ripemd160", "sha3_512", "blake2b_64", "sha256", "blake2s_32")
+    for d in ALL:
+        for p in _exhaustive(rng, block_of(d), 4, CLONE_LETTERS):
             yield (f"dig.obj {d} {p}", f"digobj.{d}.exhaustive")
+        if d in deep:
+            for p in _exhaustive(rng, block_of(d), 5):
+                if p.count(";") == 4:
+                    yield (f"dig.obj {d} {p}", f"digobj.{d}.exhaustive5")
     # static one-shot of the BLAKE2 wrappers
     for v, mx in (("blake2b", 64), ("blake2s", 32)):
         for ol in (1, mx // 2, mx, 0, mx + 1):
@@ -210,8 +227,12 @@ def gen_C09(tier, rng):
                     p = _hist(rng, B, ol, rng.randrange(1, depth + 1), ["i", "i", "R", "W", "r", "o", "Wn", "c", "x", "k"])
                     yield (f"mac.{v} {ol} {hx(key)} {p}", f"blake2mac.{v}.random")
         key = rng.rbytes(mx)
-        for p in _exhaustive(rng, B, 4 if quick else 5):
+        for p in _exhaustive(rng, B, 4, CLONE_LETTERS):
             yield (f"mac.{v} {mx} {hx(key)} {p}", f"blake2mac.{v}.exhaustive")
+        if not quick:
+            for p in _exhaustive(rng, B, 5):
+                if p.count(";") == 4:
+                    yield (f"mac.{v} {mx} {hx(key)} {p}", f"blake2mac.{v}.exhaustive5")
         # re-keying transitions between every pair of key classes (empty / 1 byte / half / full), before and after a
         # result, followed by Digest::reset (which must re-key with the LAST key): seeded change C09-7 special-cased the
         # empty key in reset_with_key
@@ -249,13 +270,16 @@ def gen_C10(tier, rng):
               255 * H + 1, 256 * H, 256 * H + 1, 300 * H]
         if not quick:
             Ls += [k * H for k in (4, 5, 8, 16, 32, 64, 127, 128, 129, 200)] + [rng.randrange(1, 255 * H) for _ in range(8)]
-        for L in Ls:
-            prk = rng.rbytes(H if rng.randrange(4) else [0, 1, B, B + 1][rng.randrange(4)])
-            info = rng.rbytes([0, 10, 80, B, 3][rng.randrange(5)])
+        for i, L in enumerate(Ls):
             # the documented domain: |PRK| >= HashLen ("prk - The pseudorandom key of at least `digest.output_bytes()` octets",
-            # RFC 5869 2.3) and L <= 255*HashLen; everything else must be refused (PANIC)
-            cls = "shortprk" if len(prk) < H else ("ok" if L <= 255 * H else "over")
-            yield (f"kdf.hkdf_expand {d} {hx(prk)} {hx(info)} {L}", f"hkdf.expand.{d}.{cls}")
+            # RFC 5869 2.3) and L <= 255*HashLen; everything else must be refused (PANIC).
+            # Every named L with a VALID PRK (|PRK| = HashLen), unconditionally ...
+            info = rng.rbytes([0, 10, 80, B, 3][rng.randrange(5)])
+            yield (f"kdf.hkdf_expand {d} {hx(rng.rbytes(H))} {hx(info)} {L}", f"hkdf.expand.{d}.{'ok' if L <= 255 * H else 'over'}")
+            # ... and IN ADDITION with a PRK of another length class (0, 1: refused; block, block+1: longer than HashLen), cycling
+            pl = [0, 1, B, B + 1][i % 4]
+            cls = "shortprk" if pl < H else ("longprk.ok" if L <= 255 * H else "longprk.over")
+            yield (f"kdf.hkdf_expand {d} {hx(rng.rbytes(pl))} {hx(info)} {L}", f"hkdf.expand.{d}.{cls}")
         # PRK lengths one below / at / one above HashLen (and 0, 1, 2*HashLen), for output lengths inside and beyond the limit
         for pl in (0, 1, H - 1, H, H + 1, 2 * H):
             for L in ((1, H + 1) if quick else (0, 1, H, H + 1, 255 * H, 255 * H + 1)):
@@ -295,42 +319,46 @@ def gen_C10(tier, rng):
     yield ("kdf.scrypt - - 4 1 1 64", "scrypt.vector")
     yield (f"kdf.scrypt {hx(b'password')} {hx(b'NaCl')} 10 8 16 64" if not quick else
            f"kdf.scrypt {hx(b'password')} {hx(b'NaCl')} 4 8 2 64", "scrypt.vector")
-    grid = []
-    maxlog = 6 if quick else 10
-    for logn in range(1, maxlog + 1):
+    # the grid the property names: log2 N in 1..=10, r in 1..=8, p in 1..=4 (320 points, sum of N*r*p = 7.4e5).
+    # thorough: ALL of it.  quick: every logN up to 10 with r = p = 1 and on a diagonal through r and p, every r, every p,
+    # then a seeded sample that keeps the sum of N*r*p under the budget (so it is weighted to cheap points).
+    maxlog = 10
+    grid = [(logn, r, p) for logn in range(1, maxlog + 1) for r in range(1, 9) for p in range(1, 5)]
+    if quick:
+        chosen = set()
+        for logn in range(1, maxlog + 1):
+            chosen.add((logn, 1, 1))
+            chosen.add((logn, 1 + (logn * 3) % 8, 1 + logn % 4))
         for r in range(1, 9):
-            for p in range(1, 5):
-                grid.append((logn, r, p))
-    # every logN, every r, every p at least once (diagonals), then a random sample weighted to cheap points
-    chosen = set()
-    for logn in range(1, maxlog + 1):
-        chosen.add((logn, 1 + (logn * 3) % 8, 1 + logn % 4))
-    for r in range(1, 9):
-        chosen.add((1 + r % maxlog, r, 1 + (r + 1) % 4))
-        chosen.add((2, r, 1))
-    for p in range(1, 5):
-        chosen.add((3, 3, p))
-        chosen.add((1, 1, p))
-    want = 44 if quick else 200
-    budget = 2.0e5 if quick else 4.0e6       # sum of N*r*p over the sample
-    cost = sum((1 << l) * r * p for (l, r, p) in chosen)
-    tries = 0
-    while len(chosen) < want and tries < 5000:
-        tries += 1
-        g = grid[rng.randrange(len(grid))]
-        c = (1 << g[0]) * g[1] * g[2]
-        if g in chosen or cost + c > budget:
-            continue
-        chosen.add(g)
-        cost += c
+            chosen.add((1 + r % 6, r, 1 + (r + 1) % 4))
+            chosen.add((2, r, 1))
+        for p in range(1, 5):
+            chosen.add((3, 3, p))
+            chosen.add((1, 1, p))
+        want, budget = 60, 2.0e5       # budget: sum of N*r*p over the sample
+        cost = sum((1 << l) * r * p for (l, r, p) in chosen)
+        tries = 0
+        while len(chosen) < want and tries < 5000:
+            tries += 1
+            g = grid[rng.randrange(len(grid))]
+            c = (1 << g[0]) * g[1] * g[2]
+            if g in chosen or cost + c > budget:
+                continue
+            chosen.add(g)
+            cost += c
+    else:
+        chosen = set(grid)             # want = 320: the full grid
     dks = [1, 2, 31, 32, 33, 63, 64, 65, 96, 97, 128, 129, 130]
     for i, (logn, r, p) in enumerate(sorted(chosen)):
         dk = dks[i % len(dks)] if i % 3 else rng.randrange(1, 131)
         pwd = rng.rbytes([0, 8, 64, 65, 20][rng.randrange(5)])
         salt = rng.rbytes([0, 4, 16, 40][rng.randrange(4)])
-        yield (f"kdf.scrypt {hx(pwd)} {hx(salt)} {logn} {r} {p} {dk}", f"scrypt.grid.r{'1' if r == 1 else ('odd' if r % 2 else 'even')}.p{'1' if p == 1 else '>1'}")
-    for dk in range(1, 131, 1 if not quick else 9):
-        yield (f"kdf.scrypt {hx(rng.rbytes(5))} {hx(rng.rbytes(5))} 2 1 1 {dk}", "scrypt.dklen")
+        yield (f"kdf.scrypt {hx(pwd)} {hx(salt)} {logn} {r} {p} {dk}",
+               f"scrypt.grid.logN{'<=6' if logn <= 6 else '7..10'}.r{'1' if r == 1 else ('odd' if r % 2 else 'even')}.p{'1' if p == 1 else '>1'}")
+    # dkLen 1..=130, every value, at r = p = 1 and at a point with r > 1 and p > 1 (the PBKDF2 output stage sees p*128*r bytes)
+    for (logn, r, p) in ((2, 1, 1), (2, 3, 2)):
+        for dk in range(1, 131):
+            yield (f"kdf.scrypt {hx(rng.rbytes(5))} {hx(rng.rbytes(5))} {logn} {r} {p} {dk}", f"scrypt.dklen.r{r}p{p}")
     if not quick:
         yield (f"kdf.scrypt {hx(rng.rbytes(5))} {hx(rng.rbytes(5))} 15 1 1 32", "scrypt.maxN-for-r1")
         yield (f"kdf.scrypt {hx(rng.rbytes(5))} {hx(rng.rbytes(5))} 12 2 1 32", "scrypt.largeN")
